@@ -165,7 +165,24 @@ pub fn expected_many(
 ) -> Vec<Vec<StateSet>> {
     let props = prop_index(net);
     let mut out = vec![Vec::with_capacity(colours.len()); fs.len()];
+    struct Done(std::time::Instant, bool);
+    impl Drop for Done {
+        fn drop(&mut self) {
+            if self.1 {
+                eprintln!("explicit oracle done in {:?}", self.0.elapsed());
+            }
+        }
+    }
+    let _done = Done(std::time::Instant::now(), std::env::var("VERIF_TRACE_WORKER").is_ok() && std::env::var("VERIF_TRACE_SLOW").is_ok());
+    let t0 = std::time::Instant::now();
+    let trace = std::env::var("VERIF_TRACE_SLOW").is_ok();
+    if trace && std::env::var("VERIF_TRACE_WORKER").is_ok() {
+        eprintln!("explicit oracle start: n={} colours={} formulas={:?} :: {}", net.n, colours.len(), fs.iter().map(|f| f.canon()).collect::<Vec<_>>(), net.aeon.replace('\n', " ; "));
+    }
     for c in colours {
+        if trace && t0.elapsed().as_secs() >= 5 {
+            eprintln!("slow explicit oracle: {:?} so far, n={} colours={} formulas={:?} :: {}", t0.elapsed(), net.n, colours.len(), fs.iter().map(|f| f.canon()).collect::<Vec<_>>(), net.aeon.replace('\n', " ; "));
+        }
         let ts = net.ts(*c);
         let labels = labels_for(ctx, *c);
         let o = Oracle {
@@ -365,6 +382,11 @@ pub fn resolve_sem_with(
         binders: &gen::BINDERS,
     };
     let fs: Vec<F> = build(&env, &raw.fs);
+    // nested Twin / TwinTail / Chain productions multiply: beyond ~600 nodes one case costs minutes
+    // (explicit evaluation is linear in the formula per state and binding) - skipped and counted
+    if fs.iter().any(|f| f.size() > 600) {
+        return Err("formula-over-600-nodes");
+    }
     let depth = fs.iter().map(|f| f.quant_depth()).max().unwrap_or(0);
     let k = depth as u16 + raw.extra_k as u16;
     let net = match Net::from_bn(bn, aeon.clone(), k) {
